@@ -1,12 +1,440 @@
-// Package c11 decides C11 (see /verif/DESIGN.md §7).
+// Package c11 decides C11: no transaction taken from the mempool is lost on its way into the chain.
 package c11
 
-import "verifharness/vk"
+import (
+	"context"
+	"fmt"
+	"math/rand"
+	"strings"
+	"sync"
+	"time"
+
+	logging "github.com/ipfs/go-log/v2"
+
+	"github.com/evstack/ev-node/block"
+	coresequencer "github.com/evstack/ev-node/core/sequencer"
+	"github.com/evstack/ev-node/sequencers/single"
+
+	"verifharness/monitors"
+	"verifharness/vk"
+	"verifharness/world"
+)
 
 // Level is the verification level claimed for this property.
-const Level = "exploration"
+const Level = "fault_enumeration"
+
+// seqProxy records what the real sequencer accepted and released.
+type seqProxy struct {
+	mu       sync.Mutex
+	inner    coresequencer.Sequencer
+	released []world.SeqResp // in release order
+	accepted [][][]byte
+	refused  int
+	nextID   int
+}
+
+func (p *seqProxy) SubmitBatchTxs(ctx context.Context, req coresequencer.SubmitBatchTxsRequest) (*coresequencer.SubmitBatchTxsResponse, error) {
+	res, err := p.inner.SubmitBatchTxs(ctx, req)
+	p.mu.Lock()
+	if err != nil {
+		p.refused++
+	} else if req.Batch != nil {
+		p.accepted = append(p.accepted, req.Batch.Transactions)
+	}
+	p.mu.Unlock()
+	return res, err
+}
+
+func (p *seqProxy) GetNextBatch(ctx context.Context, req coresequencer.GetNextBatchRequest) (*coresequencer.GetNextBatchResponse, error) {
+	res, err := p.inner.GetNextBatch(ctx, req)
+	if err == nil && res != nil && res.Batch != nil {
+		p.mu.Lock()
+		r := world.SeqResp{Kind: world.SeqEmpty, Time: res.Timestamp, ID: p.nextID}
+		if len(res.Batch.Transactions) > 0 {
+			r.Kind = world.SeqTxs
+			for _, tx := range res.Batch.Transactions {
+				r.Txs = append(r.Txs, append([]byte{}, tx...))
+			}
+		}
+		p.nextID++
+		p.released = append(p.released, r)
+		p.mu.Unlock()
+	}
+	return res, err
+}
+
+func (p *seqProxy) VerifyBatch(ctx context.Context, req coresequencer.VerifyBatchRequest) (*coresequencer.VerifyBatchResponse, error) {
+	return p.inner.VerifyBatch(ctx, req)
+}
+
+// Case is one operation script.
+type Case struct {
+	ID     int      `json:"id"`
+	Queue  int      `json:"queue_bound"`
+	Ops    []string `json:"ops"` // inj:<n>:<kind> | reap | prod | restart | crash-reap:<k> | crash-prod:<k>
+	TxSeed int64    `json:"tx_seed"`
+}
+
+func (c Case) key() string { return fmt.Sprintf("q%d %s", c.Queue, strings.Join(c.Ops, " ")) }
+
+type sim struct {
+	r           *vk.Run
+	c           Case
+	ctx         context.Context
+	im          *world.Image
+	exec        *world.ExecDouble
+	proxy       *seqProxy
+	keys        world.Keys
+	n           *world.Node
+	reaper      *block.Reaper
+	da          *world.DADouble
+	injected    map[string]int // tx bytes -> number of mempool entries ever injected
+	txN         int
+	crashes     int
+	lostAllowed map[int]bool // release ids cut by a crash
+	crashedStep []bool
+}
+
+func (s *sim) start(crashAfter int) error {
+	dsp := world.NewMemDS(s.im)
+	if crashAfter >= 0 {
+		dsp.CrashAfter(crashAfter)
+	}
+	metrics, _ := single.NopMetrics()
+	seq, err := single.NewSequencerWithQueueSize(s.ctx, logging.Logger("verif-seq"), dsp, s.da, []byte("verif-chain"), time.Second, metrics, true, s.c.Queue)
+	if err != nil {
+		return fmt.Errorf("sequencer: %w", err)
+	}
+	s.proxy.inner = seq
+	n, err := world.NewNode(s.ctx, world.NodeOpts{Aggregator: true}, s.keys, dsp, s.exec, s.proxy, s.da, nil)
+	if err != nil {
+		return err
+	}
+	s.n = n
+	s.reaper = block.NewReaper(s.ctx, s.exec, s.proxy, "verif-chain", time.Hour, logging.Logger("verif-reaper"), dsp)
+	s.reaper.SetManager(n.M)
+	return nil
+}
+
+func (s *sim) inject(rng *rand.Rand, n int, kind string) {
+	for i := 0; i < n; i++ {
+		var tx []byte
+		switch kind {
+		case "repeat":
+			// bytes that were injected before (possibly already executed)
+			if len(s.injected) > 0 {
+				k := rng.Intn(len(s.injected))
+				for b := range s.injected {
+					if k == 0 {
+						tx = []byte(b)
+						break
+					}
+					k--
+				}
+			}
+		case "dup":
+			if i > 0 {
+				tx = []byte(fmt.Sprintf("tx-%d-%d", s.c.ID, s.txN))
+			}
+		}
+		if tx == nil {
+			s.txN++
+			tx = []byte(fmt.Sprintf("tx-%d-%d", s.c.ID, s.txN))
+		}
+		s.injected[string(tx)]++
+		s.exec.Inject(tx)
+	}
+}
+
+func run(r *vk.Run, c Case) (reachedCrash []bool) {
+	ctx := context.Background()
+	rng := rand.New(rand.NewSource(c.TxSeed))
+	s := &sim{r: r, c: c, ctx: ctx, im: world.NewImage(), exec: world.NewExecDouble(), proxy: &seqProxy{}, keys: world.NewKeys("proposer"),
+		da: world.NewDADouble(), injected: map[string]int{}, lostAllowed: map[int]bool{}}
+	wit := func() any {
+		var rel []string
+		for _, x := range s.proxy.released {
+			var t []string
+			for _, tx := range x.Txs {
+				t = append(t, string(tx))
+			}
+			rel = append(rel, fmt.Sprintf("#%d %v", x.ID, t))
+		}
+		return map[string]any{"case": c, "released_batches": rel}
+	}
+	if err := s.start(-1); err != nil {
+		r.Violation("startup", err.Error(), wit())
+		return nil
+	}
+	_ = s.n.M.VerifPublishBlock(ctx) // genesis block
+	hadCrash := false
+	takeBeforeSave := false // a crash fell between the durable removal of a batch from the queue and the first save of its block
+	for _, op := range c.Ops {
+		parts := strings.Split(op, ":")
+		switch parts[0] {
+		case "inj":
+			var n int
+			fmt.Sscanf(parts[1], "%d", &n)
+			s.inject(rng, n, parts[2])
+		case "reap":
+			s.reaper.SubmitTxs()
+		case "prod":
+			_ = s.n.M.VerifPublishBlock(ctx)
+		case "restart":
+			if err := s.start(-1); err != nil {
+				r.Violation("restart", "clean restart failed: "+err.Error(), wit())
+				return reachedCrash
+			}
+		case "crash-reap", "crash-prod":
+			var k int
+			fmt.Sscanf(parts[1], "%d", &k)
+			s.n.DS.CrashAfter(k)
+			relBefore := len(s.proxy.released)
+			logBefore := len(s.n.DS.Log())
+			if parts[0] == "crash-reap" {
+				s.reaper.SubmitTxs()
+			} else {
+				_ = s.n.M.VerifPublishBlock(ctx)
+			}
+			crashed := s.n.DS.Crashed()
+			reachedCrash = append(reachedCrash, crashed)
+			if crashed {
+				hadCrash = true
+				// what was released during the cut step may be lost - but only where the code cannot know better:
+				for i := relBefore; i < len(s.proxy.released); i++ {
+					s.lostAllowed[s.proxy.released[i].ID] = true
+					if s.proxy.released[i].Kind == world.SeqTxs {
+						// was the batch durably removed from the queue, and its block not yet saved?
+						removed, saved := false, false
+						for _, w := range s.n.DS.Log()[logBefore:] {
+							if w.Op == "delete" {
+								removed = true
+							}
+							if w.Op == "batch" {
+								saved = true
+							}
+						}
+						if removed && !saved {
+							takeBeforeSave = true
+						}
+					}
+				}
+			}
+			if err := s.start(-1); err != nil {
+				r.Violation("restart", "restart after crash failed: "+err.Error(), wit())
+				return reachedCrash
+			}
+			r.Hit("restart-after-crash")
+		}
+	}
+	// quiescence: no new transactions; reap and produce until everything taken must have gone through
+	rounds := len(s.proxy.accepted) + len(c.Ops) + 6
+	for i := 0; i < rounds; i++ {
+		s.reaper.SubmitTxs()
+		_ = s.n.M.VerifPublishBlock(ctx)
+	}
+	// ---- the chain
+	tip, _ := s.n.Store.Height(ctx)
+	inChain := map[string]int{}
+	var chainBatches [][][]byte
+	for h := uint64(1); h <= tip; h++ {
+		_, d, err := s.n.Store.GetBlockData(ctx, h)
+		if err != nil {
+			r.Violation("chain", fmt.Sprintf("block %d unreadable: %v", h, err), wit())
+			return reachedCrash
+		}
+		var txs [][]byte
+		for _, tx := range d.Txs {
+			inChain[string(tx)]++
+			txs = append(txs, tx)
+		}
+		if len(txs) > 0 {
+			chainBatches = append(chainBatches, txs)
+		}
+	}
+	var viol []string
+	// no loss: every distinct tx ever taken from the mempool is in the chain
+	var lost []string
+	for _, tx := range s.exec.Taken() {
+		r.Hit("no-loss")
+		if inChain[string(tx)] == 0 {
+			lost = append(lost, string(tx))
+		}
+	}
+	// order: the non-empty blocks are the released non-empty batches, in release order (a batch released at a step cut by a crash may be missing)
+	rel := s.proxy.released
+	var nonEmpty []world.SeqResp
+	for _, x := range rel {
+		if x.Kind == world.SeqTxs {
+			nonEmpty = append(nonEmpty, x)
+		}
+	}
+	// the chain's non-empty blocks must be obtainable from the release sequence by dropping only batches
+	// released at a step cut by a crash (equal batches make the assignment ambiguous: search all)
+	memo := map[[2]int]bool{}
+	var match func(ci, ri int) bool
+	match = func(ci, ri int) bool {
+		if ri == len(nonEmpty) {
+			return ci == len(chainBatches)
+		}
+		k := [2]int{ci, ri}
+		if v, ok := memo[k]; ok {
+			return v
+		}
+		ok := false
+		if ci < len(chainBatches) && monitors.EqualTxs(nonEmpty[ri].Txs, chainBatches[ci]) {
+			ok = match(ci+1, ri+1)
+		}
+		if !ok && s.lostAllowed[nonEmpty[ri].ID] {
+			ok = match(ci, ri+1)
+		}
+		memo[k] = ok
+		return ok
+	}
+	r.HitN("release-order", int64(len(chainBatches)))
+	orderOK := match(0, 0)
+	if !orderOK {
+		// tell apart "a batch is missing" (judged by the no-loss clause below) from "wrong order / foreign block"
+		relaxed := map[[2]int]bool{}
+		var sub func(ci, ri int) bool
+		sub = func(ci, ri int) bool {
+			if ci == len(chainBatches) {
+				return true
+			}
+			if ri == len(nonEmpty) {
+				return false
+			}
+			k := [2]int{ci, ri}
+			if v, ok := relaxed[k]; ok {
+				return v
+			}
+			ok := (monitors.EqualTxs(nonEmpty[ri].Txs, chainBatches[ci]) && sub(ci+1, ri+1)) || sub(ci, ri+1)
+			relaxed[k] = ok
+			return ok
+		}
+		if !sub(0, 0) {
+			viol = append(viol, "the non-empty blocks of the chain are not the released batches in release order")
+		} else {
+			viol = append(viol, "a released batch is missing from the chain although no crash cut the step that took it")
+		}
+	}
+	if !hadCrash {
+		for tx, n := range inChain {
+			r.Hit("no-duplicate")
+			if n > s.injected[tx] {
+				viol = append(viol, fmt.Sprintf("transaction %q is in the chain %d times but was offered by the mempool %d time(s), and nothing crashed", tx, n, s.injected[tx]))
+			}
+		}
+	}
+	if len(lost) > 0 {
+		detail := fmt.Sprintf("transactions taken from the mempool never reached the chain after quiescence: %v", lost)
+		// predicted shape of C11-take-before-save: exactly the txs of batches released at a crashed step are missing
+		shapeOK := takeBeforeSave && len(viol) == 0
+		if shapeOK {
+			allowed := map[string]bool{}
+			for _, x := range rel {
+				if s.lostAllowed[x.ID] {
+					for _, tx := range x.Txs {
+						allowed[string(tx)] = true
+					}
+				}
+			}
+			for _, tx := range lost {
+				if !allowed[tx] {
+					shapeOK = false
+				}
+			}
+		}
+		if shapeOK {
+			r.Finding("C11-take-before-save", "no-loss", detail+" (the process died after the batch was durably removed from the sequencer queue and before the block holding it was first saved)", wit())
+		} else {
+			viol = append(viol, detail)
+		}
+	}
+	if len(viol) > 0 {
+		r.Violation("mempool-to-chain", strings.Join(viol, " ;; "), wit())
+	}
+	r.Count("txs_taken", int64(len(s.exec.Taken())))
+	r.Count("handoffs_refused", int64(s.proxy.refused))
+	nontrivial := false
+	for _, b := range reachedCrash {
+		nontrivial = nontrivial || b
+	}
+	r.Eval(c.key(), nontrivial || s.proxy.refused > 0, c)
+	return reachedCrash
+}
+
+func genBase(rng *rand.Rand, id int) Case {
+	c := Case{ID: id, Queue: []int{1, 2, 3, 1000}[rng.Intn(4)], TxSeed: rng.Int63()}
+	n := 6 + rng.Intn(14)
+	for i := 0; i < n; i++ {
+		switch p := rng.Intn(100); {
+		case p < 30:
+			c.Ops = append(c.Ops, fmt.Sprintf("inj:%d:%s", 1+rng.Intn(4), []string{"new", "new", "repeat", "dup"}[rng.Intn(4)]))
+		case p < 60:
+			c.Ops = append(c.Ops, "reap")
+		case p < 92:
+			c.Ops = append(c.Ops, "prod")
+		default:
+			c.Ops = append(c.Ops, "restart")
+		}
+	}
+	return c
+}
 
 // Run is the check entry point.
 func Run(r *vk.Run) {
-	r.Rule = "not implemented yet"
+	world.Silence()
+	r.Rule = "operation scripts {inject 1-4 txs (new | repeat of earlier bytes | duplicate within the mempool), reap (real Reaper.SubmitTxs), produce (real Manager step), clean restart} on the real Reaper + real single sequencer (queue bound 1|2|3|1000, so hand-offs are refused) + real aggregator Manager sharing one datastore; for the first three reap and the first three produce operations of every script the operation is additionally cut by a crash after durable write k = 0..W (enumerated until the operation completes), followed by a restart; then reap/produce rounds until quiescence. Oracle: every tx the mempool handed out is in the chain; non-empty blocks = released batches in release order; without crashes a tx is in the chain at most as often as the mempool offered it. non-trivial = a crash strictly inside an operation or a refused hand-off; distinct by (queue bound, operation list)"
+	r.Assume("mempool double per contract: GetTxs does not remove, executed transactions leave the mempool; identity of a transaction is its bytes (as in the reaper)")
+	r.Assume("MemDS double: one durable write = one Put/Delete/Batch.Commit; reaper seen-set, sequencer queue and block store share the datastore as in the node")
+	rng := r.Rand("cases")
+	nBase := r.N(60, 1200)
+	var bases []Case
+	for i := 0; i < nBase; i++ {
+		bases = append(bases, genBase(rng, i))
+	}
+	var wg sync.WaitGroup
+	ch := make(chan Case)
+	for w := 0; w < 14; w++ {
+		wg.Add(1)
+		go func() {
+			defer wg.Done()
+			for base := range ch {
+				run(r, base) // crash-free
+				// crash variants: each of the first three reap / prod operations cut after write k
+				seenReap, seenProd := 0, 0
+				for pos, op := range base.Ops {
+					kind := ""
+					if op == "reap" && seenReap < 3 {
+						seenReap++
+						kind = "crash-reap"
+					}
+					if op == "prod" && seenProd < 3 {
+						seenProd++
+						kind = "crash-prod"
+					}
+					if kind == "" {
+						continue
+					}
+					for k := 0; k < 40; k++ {
+						c := base
+						c.Ops = append(append(append([]string{}, base.Ops[:pos]...), fmt.Sprintf("%s:%d", kind, k)), base.Ops[pos+1:]...)
+						reached := run(r, c)
+						if len(reached) == 0 || !reached[0] {
+							break
+						}
+					}
+				}
+			}
+		}()
+	}
+	for _, b := range bases {
+		ch <- b
+	}
+	close(ch)
+	wg.Wait()
+	r.SetExhaustive(true)
+	r.Require("no-loss", 500)
+	r.Require("restart-after-crash", 100)
 }
